@@ -32,7 +32,7 @@ RACE_OBJECTS = {
     ],
     "C04-race-merge-and-compaction-iterators": [
         "immutable.MergePerformers.*", "immutable.mergePerformer.*", "immutable.ColumnIterator.*", "immutable.FileIterator.*",
-        "immutable.ChunkIterators.*", "immutable.tsspFileReader.*",
+        "immutable.ChunkIterators.*", "immutable.ChunkIterator.*", "immutable.tsspFileReader.*",
     ],
 }
 # reports whose object cannot be derived from the two source lines (no selector in common: an element of a reused
